@@ -51,3 +51,74 @@ Qed.
 
 Lemma sky_prior_construction : sky_prior_is_affine_normal_reparam = true.
 Proof. reflexivity. Qed.
+
+(* ---- further structure of the plane (session 3) ---- *)
+
+(* the slopes are per-pixel gradients: one column to the right adds x_slope, one row down adds y_slope *)
+Lemma sky_plane_gradient N r c back xs ys :
+  sky_tilted (Xof r (c + 1)) (Yof r (c + 1)) N N back xs ys - sky_tilted (Xof r c) (Yof r c) N N back xs ys = xs /\
+  sky_tilted (Xof (r + 1) c) (Yof (r + 1) c) N N back xs ys - sky_tilted (Xof r c) (Yof r c) N N back xs ys = ys.
+Proof.
+  unfold sky_tilted, Xof, Yof, grid_X, grid_Y. rewrite !plus_IZR. split; ring.
+Qed.
+
+(* sky_back is the value of the plane at the pivot (N/2, N/2) *)
+Lemma sky_plane_pivot s0 s1 back xs ys : sky_tilted (s0 / 2) (s1 / 2) s0 s1 back xs ys = back.
+Proof. unfold sky_tilted. ring. Qed.
+
+(* the plane is jointly linear in (back, x_slope, y_slope) *)
+Lemma sky_plane_linear X Y s0 s1 a b1 x1 y1 b2 x2 y2 :
+  sky_tilted X Y s0 s1 (a * b1 + b2) (a * x1 + x2) (a * y1 + y2) =
+  a * sky_tilted X Y s0 s1 b1 x1 y1 + sky_tilted X Y s0 s1 b2 x2 y2.
+Proof. unfold sky_tilted. ring. Qed.
+
+(* point reflection through the pivot: the two values average to sky_back *)
+Lemma sky_plane_point_reflection X Y s0 s1 back xs ys :
+  sky_tilted X Y s0 s1 back xs ys + sky_tilted (s0 - X) (s1 - Y) s0 s1 back xs ys = 2 * back.
+Proof. unfold sky_tilted. field. Qed.
+
+(* total sky over an n x n frame: n^2 back - (n/2) n (xs + ys)  (pixel centres 0..n-1, pivot n/2:
+   the frame mean is back - (xs + ys)/2, i.e. sky_back is the value half a pixel past the centre) *)
+Fixpoint sumZ (f : Z -> R) (n : nat) : R :=
+  match n with O => 0 | S k => sumZ f k + f (Z.of_nat k) end.
+
+Lemma sumZ_IZR n : sumZ IZR n = INR n * (INR n - 1) / 2.
+Proof.
+  induction n as [|k IH]; [simpl; field|].
+  cbn [sumZ]. rewrite IH, <- INR_IZR_INZ, S_INR. field.
+Qed.
+
+Lemma sumZ_const a n : sumZ (fun _ => a) n = INR n * a.
+Proof. induction n as [|k IH]; [simpl; ring|]. cbn [sumZ]. rewrite IH, S_INR. ring. Qed.
+
+Lemma sumZ_plus f g n : sumZ (fun z => f z + g z) n = sumZ f n + sumZ g n.
+Proof. induction n as [|k IH]; [simpl; ring|]. cbn [sumZ]. rewrite IH. ring. Qed.
+
+Lemma sumZ_scal a f n : sumZ (fun z => a * f z) n = a * sumZ f n.
+Proof. induction n as [|k IH]; [simpl; ring|]. cbn [sumZ]. rewrite IH. ring. Qed.
+
+Lemma sumZ_ext f g n : (forall z, f z = g z) -> sumZ f n = sumZ g n.
+Proof. intros H. induction n as [|k IH]; [reflexivity|]. cbn [sumZ]. rewrite IH, H. reflexivity. Qed.
+
+Lemma sky_plane_row_total n r back xs ys :
+  sumZ (fun c => sky_tilted (Xof r c) (Yof r c) (INR n) (INR n) back xs ys) n =
+  INR n * (back + (IZR r - INR n / 2) * ys) - INR n / 2 * xs.
+Proof.
+  rewrite (sumZ_ext _ (fun c => (back - INR n / 2 * xs + (IZR r - INR n / 2) * ys) + xs * IZR c)).
+  2:{ intros z. unfold sky_tilted, Xof, Yof, grid_X, grid_Y. ring. }
+  rewrite sumZ_plus, sumZ_const, sumZ_scal, sumZ_IZR. field.
+Qed.
+
+Lemma sky_plane_frame_total n back xs ys :
+  sumZ (fun r => sumZ (fun c => sky_tilted (Xof r c) (Yof r c) (INR n) (INR n) back xs ys) n) n =
+  INR n * INR n * back - INR n * INR n / 2 * (xs + ys).
+Proof.
+  rewrite (sumZ_ext _ (fun r => (INR n * (back - INR n / 2 * ys) - INR n / 2 * xs) + (INR n * ys) * IZR r)).
+  2:{ intros z. rewrite sky_plane_row_total. ring. }
+  rewrite sumZ_plus, sumZ_const, sumZ_scal, sumZ_IZR. field.
+Qed.
+
+(* non-vacuity: a 4 x 4 frame with back = 10, slopes (1, 2) totals 16*10 - 8*3 = 136 *)
+Example sky_plane_frame_total_example :
+  sumZ (fun r => sumZ (fun c => sky_tilted (Xof r c) (Yof r c) 4 4 10 1 2) 4) 4 = 136.
+Proof. replace 4 with (INR 4) by (simpl; ring). rewrite sky_plane_frame_total. simpl. field. Qed.
